@@ -18,15 +18,26 @@ ASSUMPTIONS = ['theorems are over the reals (exact arithmetic, no overflow, libm
                'operations are the division by the determinant of the frame matrix (proved to be 1) and those of toECEF '
                '(discharged in C01 over RN); rounding (cancellation of 6.4e6 m magnitudes) is covered by the correspondence check '
                'and the probe with the 1 mm tolerance of the property',
-               'compositions through toWGS84 inherit C01 (latitude loop: fixed-point theorem + probe)']
+               'the composition through toWGS84 (toENU_toWGS84_within_1mm) is proved for local points whose ECEF image lies in '
+               'C01\'s property domain, via C01.reverse_composition_real; that every point within 100 km / 10 km of an anchor '
+               'with |lat| <= 85 deg, h in [-500 m, 9000 m] is such a point is geometrically evident but not a theorem here']
 EXPLANATION = ('Lean theorems (frame matrix is a proper rotation with columns east/north/up, anchor -> origin, h above anchor -> '
-               '(0,0,h), isometry, exact mutual inverses, history theorem by induction over op sequences) on a state-machine model '
+               '(0,0,h), isometry, exact mutual inverses with toECEF, 1 mm inverse with toWGS84 via C01, history theorem by induction '
+               'over op sequences incl. the flag characterisation and the auto-anchor) on a state-machine model '
                'tied to the C++ by differential correspondence on op sequences of one converter object, plus a probe of the '
                'implementation against an independent reference frame')
 
 # stage G: the GRS80 axes (and EPSILON of the latitude loop used by toWGS84) are regenerated exactly as for C01
 from props import c01 as _c01
-regen = _c01.regen
+
+
+def regen(ctx):
+    ctx['notes'].append('observation (not a finding): ENUConverter::reset() does not clear the stored anchor (getAnchor()), and '
+                        'toENU(WGS84Coordinates) takes its altitude from it, so after reset() the height of the next auto-anchor '
+                        'through that overload is inherited from the previous anchor; the point still maps to the origin, the '
+                        'property as stated is met (modelled in Book.step / theorem auto_anchor_wgs_maps_to_origin, exercised by '
+                        'the reset-scenario cases)')
+    return _c01.regen(ctx)
 
 A, B = 6378137.0, 6356752.314
 LATMAX = math.radians(85.0)
